@@ -206,4 +206,40 @@ CHECKS["C07"] = dict(
     thorough=dict(workers=16, cases=6000, maxsize=80),
 )
 
+CHECKS["C06"] = dict(
+    harness="C06_term", sources=["props/C06_term.cc", "shim/shim.c", "pki/pki.cc"], variant="asan",
+    level="fault_enumeration", engine="rapidcheck scenarios + complete fault enumeration per scenario (shim) + ASan/UBSan",
+    technique="fault-injection enumeration over generated scenarios: every send()/recv() index of the "
+              "scenario x every errno, peer death at generated wire offsets (byte budget below the "
+              "peer), failed establishment; terminal-state-machine oracle over all later calls",
+    level_text="For each generated traffic scenario on tcp/tls/btcp/btls/utls the fault-free run counts the "
+               "send() and recv() calls of the endpoint under test (TLS handshake included); the scenario "
+               "is then re-run once per (direction, call index, errno in ECONNRESET ETIMEDOUT EHOSTUNREACH "
+               "ENETUNREACH EPIPE) with exactly that call failing - complete per scenario in the thorough tier (up to 400 indices per direction; the quick tier "
+               "takes the first 8 and an even subsample of 40 per direction). Peer death: the peer (real XCM) may write c bytes "
+               "(c around every header/payload boundary of its planned frames, or 0..3000 from the start "
+               "of the TLS handshake) and then dies by FIN, close, flush+close or RST; on ux/uxf by close "
+               "with and without unread data. Failed establishment: connect() or the connect status probe "
+               "fails with each errno after 0..5 in-progress answers, or the port is really closed, "
+               "blocking and non-blocking. Scenarios are sampled.",
+    level_note="The injected errno is returned by the interposed send()/recv()/connect()/SO_ERROR without "
+               "touching the kernel; stickiness afterwards is XCM's own doing, which is what the property "
+               "demands. After a real RST only membership in {ECONNRESET, EPIPE, (TLS) EPROTO} is demanded.",
+    rule=("case = one scenario. Mode A (40%): transport x side under test x up to 24 steps "
+          "(send/receive/finish on either end, fragmentation scripts) followed by a fixed tail of 7 calls; "
+          "all (direction, index, errno) faults enumerated. Mode B (40%): scenario + byte budget + kind of "
+          "death + position. Mode C (20%): establishment failure. Oracle: the call in which the fault "
+          "occurs reports that errno (receive may report EPIPE as close); once a terminal condition "
+          "(0 from receive, or an errno) has been reported no send/receive succeeds, and on TCP-based "
+          "transports every later send/receive/finish reports the same errno (close <-> EPIPE, receive 0); "
+          "a terminal report needs a cause; close is reported only after every completely arrived message; "
+          "deliveries are a prefix of the ledger, never partial. Non-trivial = fault hit during the "
+          "handshake, or with a frame pending, or first observed by send/finish/connect/accept; cut inside "
+          "a frame or handshake, RST, or close with unread data; deferred or injected establishment failure."),
+    assumptions=["non-blocking endpoints except in mode C",
+                 "TLS peer vanishing without close_notify may be reported as EPROTO, ECONNRESET, EPIPE or close"],
+    quick=dict(workers=16, cases=100, maxsize=24, env={"VF_C06_CAP": "40"}),
+    thorough=dict(workers=16, cases=1200, maxsize=24, env={"VF_C06_CAP": "400"}),
+)
+
 NOT_APPLICABLE = []
